@@ -1,6 +1,6 @@
 """C11 compilation is a pure function of source tree and options (PARTIAL: order-independence and log non-interference
 proved on models, the runtime explored)."""
-import concurrent.futures, itertools, json, re
+import concurrent.futures, hashlib, itertools, json, re
 import vlib
 from vlib import drv_batch
 
@@ -123,6 +123,164 @@ TREES = [
     ({"Project.prql": "from a.x", "a.prql": "let x = (from t1)", "a.txt": "let x = (from t2)"}, []),
 ]
 OPS = ["compile", "rq", "fmt", "pl_json_text"]
+
+
+# ---------------------------------------------------------------------------------------------------------------------
+# corpus directed at what makes HashMap order OBSERVABLE in the intermediate outputs (RQ, PL, lineage, the stages of the debug
+# log) even when the SQL text is the same: tables with unknown columns (no declaration) of which SEVERAL columns are referenced
+# by name before the whole input is used as a tuple (`e.*`, `select {e}`, `group e.* (..)`) - the table instance then holds
+# {named columns + wildcard} in a map (lowering.rs LoweredTarget::Input) and every consumer must order it by position
+# ---------------------------------------------------------------------------------------------------------------------
+WTABLES = {"e": ("employees", ["emp_id", "dept", "age", "name", "city"]),
+           "s": ("salaries", ["emp_id", "salary", "year", "grade", "bonus"]),
+           "d": ("departments", ["dept", "head", "floor", "budget"])}
+
+
+def _wrefs(alias, cols, style):
+    """transforms that reference the columns `cols` of input `alias` by name, one transform per column"""
+    q = (alias + ".") if alias else ""
+    out = []
+    for i, c in enumerate(cols):
+        st = style[i % len(style)]
+        if st == "f":
+            out.append(f"filter {q}{c} != null")
+        elif st == "d":
+            out.append(f"derive {{x{i} = {q}{c}}}")
+        elif st == "s":
+            out.append(f"sort {{{'-' if i % 2 else ''}{q}{c}}}")
+        else:
+            out.append(f"filter ({q}{c} ?? {q}{cols[0]}) != null")
+    return out
+
+
+# whole-input uses; {e} = alias of the first input, {s} = alias of the joined one (None: single-table use)
+WUSES_1 = ["select {{{e}.*}}", "select {{{e}}}", "group {e}.* (aggregate {{n = count this}})", "group {{{e}.*}} (take 1)",
+           "derive {{k = 1}} | select {{{e}.*, k}}", "select {{{e}.*}} | take 3 | derive {{z = 1}}", "select {{w = {e}}}",
+           "select {{{e}.*}} | select {{this.*}}", "select {{k = 1, {e}.*}} | select {{this.*}}", "aggregate {{n = count {e}.*}}",
+           "group {e}.* (sort {{{e}.*}} | take 1)", "select {{{e}.*, {e}.*}}", "take 5 | select {{{e}.*}} | sort {{{e}.*}}"]
+WUSES_2 = ["select {{{e}.*, {s}.salary}}", "select {{{s}.salary, {e}.*}}", "select {{{e}.*, {s}.*}}", "select {{{s}.*, {e}.*}}", "select {{{e}, {s}.salary}}",
+           "group {e}.* (aggregate {{m = max {s}.salary}})", "group {{{e}.*}} (sort {s}.salary | take 1)", "select {{{e}, {s}}}",
+           "derive {{k = {s}.salary + 1}} | select {{{e}.*, k}}", "select {{{e}.*, {s}.salary}} | take 3 | derive {{z = 1}}",
+           "group {{{e}.*, {s}.year}} (aggregate {{m = max {s}.salary, n = count this}})", "select {{k = 1, {e}.*, {s}.salary}} | select {{this.*}}",
+           "select !{{{s}.salary}}", "select {{{s}.salary, k = 2, {e}.*}} | select !{{k}}"]
+
+
+def wild_systematic():
+    """seed-independent stream: (alias kind) x (number of named references 2..4) x (reference style) x (whole-input use)"""
+    out = []
+    styles = ["f", "fd", "sfd", "c"]
+    n = 0
+    for use in WUSES_1:
+        for k in (2, 3, 4):
+            for alias in ("e", ""):
+                n += 1
+                st = styles[n % len(styles)]
+                tab, cols = WTABLES["e"]
+                a = alias or tab
+                src = f"from {alias + '=' if alias else ''}{tab}"
+                refs = _wrefs(alias if (n % 3) else "", cols[:k], st) if not alias else _wrefs(alias, cols[:k], st)
+                out.append(" | ".join([src] + refs + [use.format(e=a)]))
+    for use in WUSES_2:
+        for k in (2, 3, 4):
+            n += 1
+            st = styles[n % len(styles)]
+            (te, ce), (ts, cs) = WTABLES["e"], WTABLES["s"]
+            side = ["", "side:left ", "side:full "][n % 3]
+            before = _wrefs("e", ce[1:k], st)                       # emp_id is referenced by the join condition
+            after = _wrefs("e", ce[k:k + (n % 2)], "f") + _wrefs("s", cs[1:1 + (n % 3)], "f")
+            out.append(" | ".join([f"from e={te}"] + before[:n % 2 + 1] + [f"join {side}s={ts} (==emp_id)"] + before[n % 2 + 1:] + after + [use.format(e="e", s="s")]))
+    # three wildcard inputs, several columns of each referenced
+    for n, use in enumerate(["select {e.*, s.*, d.*}", "select {d.*, e.*, s.salary}", "select {e.*, d.head}", "group e.* (aggregate {m = max s.salary, h = min d.head})",
+                             "select {e, s, d}", "group {e.*, d.*} (take 1)", "select {s.*} | select {this.*}"]):
+        out.append(" | ".join(["from e=employees", "filter e.age != null", "join s=salaries (==emp_id)", "join side:left d=departments (e.dept == d.dept)",
+                               "filter s.year != null", "filter d.floor != null", "filter e.city != null", "filter s.grade != null", use]))
+    # the instance behind a let / a second instance of the same table / inside append and loop
+    out += ["let a = (from e=employees | filter e.age != null | filter e.dept != null | select {e.*})\nfrom a | take 2",
+            "let a = (from e=employees | filter e.age != null | filter e.dept != null | filter e.city != null)\nfrom a | join s=salaries (==emp_id) | filter s.year != null | filter s.grade != null | select {s.*, a.*}",
+            "let a = (from employees | filter age != null | filter dept != null)\nfrom x=a | join y=a (x.emp_id == y.emp_id) | filter x.city != null | filter y.name != null | select {x.*, y.*}",
+            "from e=employees | filter e.age != null | filter e.dept != null | select {e.*} | append (from f=employees | filter f.city != null | filter f.name != null | select {f.*})",
+            "from e=employees | filter e.age != null | filter e.dept != null | group e.* (aggregate {n = count this}) | join s=salaries (==emp_id) | filter s.year != null | select {s.*, n}",
+            "from e=employees | join s=salaries (==emp_id) | filter e.dept == \"R&D\" | filter e.age > 30 | select {e.*, s.salary}",
+            "from e=employees | filter e.age != null | filter e.dept != null | filter e.city != null | filter e.name != null | filter e.emp_id != null | select {e.*}",
+            "from e=employees | window rows:-1..1 (sort {e.age, e.dept} | derive {m = sum e.emp_id}) | select {e.*, m}",
+            "from e=employees | derive {a2 = e.age * 2, d2 = e.dept, c2 = e.city} | select {e.*, a2} | sort {a2} | take 3",
+            "from e=employees | filter e.age != null | filter e.dept != null | loop (filter e.age < 10 | select {e.*})"]
+    return list(dict.fromkeys(out))
+
+
+def wild_random(rng, n):
+    """random members of the same family (from ctx.rng)"""
+    out = []
+    for _ in range(n):
+        ali = rng.sample(sorted(WTABLES), rng.randint(1, 3))
+        parts = []
+        for i, a in enumerate(ali):
+            tab, cols = WTABLES[a]
+            if i == 0:
+                parts.append(f"from {a}={tab}")
+            else:
+                b = ali[0]
+                common = [c for c in cols if c in WTABLES[b][1]]
+                cond = f"(=={common[0]})" if common and rng.random() < 0.6 else f"({b}.{rng.choice(WTABLES[b][1])} == {a}.{rng.choice(cols)})"
+                parts.append(f"join {rng.choice(['', 'side:left ', 'side:right ', 'side:full '])}{a}={tab} {cond}")
+            refs = rng.sample(cols, rng.randint(0, len(cols)))
+            parts += _wrefs(a, refs, rng.choice(["f", "fd", "sfd", "c", "d"]))
+        # keep `from` first and every join before the references to its input: shuffle only the reference transforms after the last join
+        lj = max(i for i, p in enumerate(parts) if p.startswith(("from", "join")))
+        tail = parts[lj + 1:]
+        rng.shuffle(tail)
+        parts = parts[:lj + 1] + tail
+        e = ali[0]
+        if len(ali) == 1:
+            use = rng.choice(WUSES_1).format(e=e)
+        else:
+            s = ali[1]
+            use = rng.choice(WUSES_2 + WUSES_1).format(e=rng.choice(ali), s=s)
+            if "salary" in use and s != "s":
+                use = use.replace(f"{s}.salary", f"{s}.{WTABLES[s][1][1]}")
+        out.append(" | ".join(parts + [use]))
+    return out
+
+
+def many_things():
+    """many lets / modules / functions / named arguments / columns / errors at once (seed-independent)"""
+    out = []
+    lets = "\n".join(f"let v{i} = (from w{i % 3} | filter w{i % 3}.k{i} != null | filter w{i % 3}.j{i} != null | derive {{c{i} = w{i % 3}.k{i} + {i}}})" for i in range(8))
+    out.append(lets + "\nfrom v0 | join v3 (v0.c0 == v3.c3) | join side:left v5 (v3.c3 == v5.c5) | select {v0.*, v3.c3, v5.*}")
+    out.append(lets + "\nfrom v7 | join v1 (v7.c7 == v1.c1) | join v2 (v1.c1 == v2.c2) | join v4 (v2.c2 == v4.c4) | join v6 (v4.c4 == v6.c6) | select {v6.*, v4.*, v2.*, v1.*, v7.*}")
+    out.append(lets + "\nlet u = (from v0 | append v3 | append v6)\nfrom u | join v1 (u.c0 == v1.c1) | group v1.* (aggregate {n = count this})")
+    mod = ("module m1 {\n let f = x -> x + 1\n let g = a:1 b:2 x -> x * a + b\n let base = (from tbl | filter tbl.p != null | filter tbl.q != null)\n"
+           " module inner {\n  let h = x -> x - 1\n  let t = (from m1.base | derive {y = m1.f p})\n  module deep { let c = 7\n let r = (from m1.inner.t | derive {w = y + c}) }\n }\n}\n"
+           "module m2 { let k = 3\n let t2 = (from other | filter other.p != null | filter other.z != null) }\n")
+    out.append(mod + "from m1.inner.t | derive {z = m1.g a:2 y, w = m1.inner.h z, v = m2.k}")
+    out.append(mod + "from m1.inner.deep.r | join t2=m2.t2 (==p) | select {r.*, t2.z, c = m1.inner.deep.c}")
+    out.append(mod + "from m1.base | join t2=m2.t2 (==p) | group base.* (aggregate {n = count this, s = sum t2.z})")
+    out.append(mod + "from m1.base | select {base.*} | join t2=m2.t2 (==p) | select {t2.*, base.*}")
+    fns = "\n".join(f"let f{i} = a{i}:{i} b{i}:{i + 1} x -> x + a{i} * b{i}" for i in range(6))
+    out.append(fns + "\nfrom t | select {" + ", ".join(f"y{i} = f{i} b{i}:{i + 5} a{i}:{i + 3} c" for i in range(6)) + "}")
+    out.append(fns + "\nfrom t | derive {" + ", ".join(f"y{i} = f{i} (f{(i + 1) % 6} c)" for i in range(6)) + "} | sort {y3} | take 4 | select {y5, y0, y3}")
+    cols = ", ".join(f"c{i:02d} = a + {i}" for i in range(16))
+    out.append(f"from t | select {{{cols}}} | sort {{c03, -c11}} | take 5 | select {{c15, c00, c07, c03, c11}}")
+    out.append(f"from t | derive {{{cols}}} | filter c05 > 1 | group {{c01, c02}} (aggregate {{s = sum c03, m = max c04, n = count this}}) | sort {{-s}}")
+    out.append(f"from t | join u (==a) | derive {{{cols}}} | select {{t.*, c09, u.*, c01}}")
+    out.append("from w | " + " | ".join(f"filter w.k{i:02d} != null" for i in range(14)) + " | select {w.*}")
+    out.append("from w | " + " | ".join(f"filter w.k{i:02d} != null" for i in range(14)) + " | join v (==k00) | " + " | ".join(f"filter v.j{i:02d} != null" for i in range(9)) + " | group w.* (aggregate {n = count v.*})")
+    # many errors at once (lexer / parser recover and report several; the resolver reports one)
+    out += ["from t | select {a +, b *, c -}\nlet x = \nlet y = (from | )\nfrom u | derive {z = }",
+            "let a = (from t | select {x = 1 +})\nlet b = (from t | select {y = * 2})\nlet c = (from t | filter)\nfrom a | join b (==) | join c",
+            "from t | select {a = 'unterminated, b = \"also, c = $}\nfrom u | derive {d = @bad-date, e = 1..}",
+            "from t | derive {x = 1 ~~ 2, y = 3 ^^ 4, z = 5 ## 6}\nlet w = ? ? ?",
+            "module m { let a = \n let b = ) \n let c = ] }\nfrom m.a | join m.b | select {m.c +}",
+            "from t | select {nope1, nope2, nope3} | filter nope4 > nope5 | sort nope6",
+            "from t | select {a, b, c} | derive {x1 = zz1, x2 = zz2, x3 = zz3}",
+            "from t | join u (==a) | join v (==b) | select {t.nope, u.nope, v.nope}"]
+    return out
+
+
+SRC_OPS = ["tokens", "lex"]                                  # take the source as `src`
+MID_OPS = ["pl", "rq_json", "lineage"]                       # besides OPS: PL as a value, the RQ JSON text, lineage
+DIALECTS = ["sql.any", "sql.ansi", "sql.bigquery", "sql.clickhouse", "sql.duckdb", "sql.generic", "sql.glaredb", "sql.mssql", "sql.mysql",
+            "sql.postgres", "sql.redshift", "sql.sqlite", "sql.snowflake"]
 LETTERS = "SFEUDQC"
 LETTER_REQ = {"S": {"op": "debug_log_start"}, "F": {"op": "debug_log_finish"}, "E": {"op": "debug_log_stage"}, "U": {"op": "debug_log_suppress"},
               "D": {"op": "debug_log_unsuppress"}, "Q": {"op": "debug_log_is_enabled"}, "C": {"op": "compile", "prql": "from t | sort a | take 3"}}
@@ -193,9 +351,17 @@ def _orderby_terms(sql, f):
     return re.sub(r"(ORDER BY )((?:[A-Za-z_][\w.]*(?: DESC| ASC)?(?:, )?)+)", clause, sql)
 
 
+def _unquote_all(sql, wit):
+    """sql.snowflake quotes EVERY identifier: read `"x"` as `x` so that the two ORDER BY canonicalisers see the same text shape as
+    for the other dialects (only for that target, only simple identifiers)"""
+    if isinstance(sql, str) and wit.get("target") == "sql.snowflake":
+        return re.sub(r'"([A-Za-z_][A-Za-z0-9_]*)"', r"\1", sql)
+    return sql
+
+
 def canon_orderby_alias(ans, wit):
     """ORDER BY names an alias of the sort column: replace each term by the (sorted) set of things its name is an alias of"""
-    sql = ans.get("sql") if isinstance(ans, dict) else None
+    sql = _unquote_all(ans.get("sql"), wit) if isinstance(ans, dict) else None
     if not sql:
         return ans
     src = _alias_sources(sql)
@@ -211,7 +377,7 @@ def canon_orderby_alias(ans, wit):
 
 def canon_cte_instance(ans, wit):
     """ORDER BY qualifies the sort column with one of several instances of one CTE (or with a CTE that is not in scope)"""
-    sql = ans.get("sql") if isinstance(ans, dict) else None
+    sql = _unquote_all(ans.get("sql"), wit) if isinstance(ans, dict) else None
     if not sql:
         return ans
     rels = re.findall(r"(?:FROM|JOIN) ([A-Za-z_]\w*)", sql)
@@ -274,6 +440,15 @@ def canon_wildcard_order(ans, wit):
     text = wit.get("prql", "") + " ".join(c for _, c in wit.get("files", []))
     if "join" not in text:
         return ans
+    if not wild_trigger(text):
+        return ans
+    if wit.get("op") == "rq_json" and isinstance(ans, dict) and isinstance(ans.get("json"), str):
+        try:
+            ans = {"rq": json.loads(ans["json"])}
+        except Exception:
+            return ans
+    if wit.get("op") == "lineage" and isinstance(ans, dict) and "lineage" in ans:
+        return lineage_canon(ans)
     if isinstance(ans, dict) and "sql" in ans:
         def sel(m):
             items = m.group(1).split(", ")
@@ -307,8 +482,137 @@ def canon_wildcard_order(ans, wit):
                     return [walk(v[0]), "#"]
                 return [walk(x, under) for x in v]
             return v
-        return walk(ans)
+        # what the defect of the unchanged tree does NOT do: change the relative order of two columns of ONE input instance, change
+        # which column an expression refers to.  The strict form keeps both (ids replaced by where they are defined).  Only when the
+        # source gives a bare column an alias (`x = u.d`: in the RQ that column is indistinguishable from the other columns of `u`,
+        # and as a PLAIN name it is what the defect moves) the loose form alone decides.
+        if alias_of_ident(text):
+            return walk(ans)
+        return {"loose": walk(ans), "strict": rq_strict(ans)}
     return ans
+
+
+def wild_trigger(text):
+    """over-approximation of what wildcard-equal-order-choice needs in the source: a second input (join), a PLAIN column name (an
+    alias `name = ..`: only aliased columns are inserted into the frame's root namespace, module.rs insert_frame) and a place where
+    the whole frame is expanded (`this` / `that` - also `this.*`, `count this` -, `!{..}`, the frame handed to group / window)"""
+    text = _no_table_alias(text)
+    return ("join" in text and re.search(r"[\w`]\s*=(?!=)", text) is not None
+            and re.search(r"\bthis\b|\bthat\b|!\{|\bgroup\b|\bwindow\b", text) is not None)
+
+
+def _no_table_alias(text):
+    """`from e=employees`, `join side:left s=salaries`, `let x = ..` name relations, not columns"""
+    text = re.sub(r"\b(from|join)\s+((?:side:\w+\s+)?)[\w`]+\s*=(?!=)\s*", r"\1 \2", text)
+    return re.sub(r"\blet\s+[\w`]+\s*=(?!=)", "let ", text)
+
+
+def alias_of_ident(text):
+    text = _no_table_alias(text)
+    return re.search(r"[\w`]\s*=\s*[A-Za-z_`][\w.`]*\s*(?:[,}|)\n]|$)", text) is not None
+
+
+def _short(s):
+    return s if len(s) < 600 else "h:" + hashlib.md5(s.encode()).hexdigest()
+
+
+def rq_strict(ans):
+    """an RQ value with every column id replaced by a name made of its definition (input instance + column, or the computed
+    expression with its span) and every list of column ids split, stably, by origin: the order BETWEEN origins is forgotten, the order
+    among the columns of one input instance and among the computed columns is kept"""
+    names = {}
+
+    def nm(c):
+        return names.get(c, ("?", "cid%s" % c))
+
+    def is_tref_cols(x):
+        return isinstance(x, list) and x and all(isinstance(e, list) and len(e) == 2 and isinstance(e[1], int) for e in x)
+
+    def defs(v):
+        if isinstance(v, dict):
+            if "source" in v and is_tref_cols(v.get("columns")):
+                inst = v.get("name") or "tid%s" % v.get("source")
+                for col, cid in v["columns"]:
+                    names[cid] = ("in:" + str(inst), str(inst) + "." + J(col))
+            for x in v.values():
+                defs(x)
+        elif isinstance(v, list):
+            for x in v:
+                defs(x)
+
+    def computes(v):
+        if isinstance(v, dict):
+            c = v.get("Compute")
+            if isinstance(c, dict) and isinstance(c.get("id"), int):
+                names[c["id"]] = ("computed", _short("c:" + J(walk({k: x for k, x in c.items() if k != "id"}))))
+            for x in v.values():
+                computes(x)
+        elif isinstance(v, list):
+            for x in v:
+                computes(x)
+
+    def part(cids):
+        items = [nm(c) if isinstance(c, int) else ("?", J(walk(c))) for c in cids]
+        return [[cl, [n for c2, n in items if c2 == cl]] for cl in sorted({c for c, _ in items})]
+
+    def walk(v, under=None):
+        if isinstance(v, dict):
+            if "Literal" in v:
+                return v
+            out = {}
+            for k, x in v.items():
+                if k in ("ColumnRef", "column", "id") and isinstance(x, int) and not ("relation" in v and "name" in v):
+                    out[k] = nm(x)[1]
+                elif k in ("Select", "partition", "compute") and isinstance(x, list):
+                    out[k] = part(x)
+                elif k == "columns" and is_tref_cols(x):
+                    out[k] = [[walk(c), nm(i)[1]] for c, i in x]
+                else:
+                    out[k] = walk(x, k)
+            # a relation: its column names go with the last Select of its pipeline
+            pl = v.get("kind", {}).get("Pipeline") if isinstance(v.get("kind"), dict) else None
+            if isinstance(pl, list) and isinstance(v.get("columns"), list) and not is_tref_cols(v["columns"]):
+                sels = [t["Select"] for t in pl if isinstance(t, dict) and isinstance(t.get("Select"), list)]
+                if sels and len(sels[-1]) == len(v["columns"]) and all(isinstance(c, int) for c in sels[-1]):
+                    items = [(nm(c)[0], J(col)) for c, col in zip(sels[-1], v["columns"])]
+                    out["columns"] = [[cl, [n for c2, n in items if c2 == cl]] for cl in sorted({c for c, _ in items})]
+            return out
+        if isinstance(v, list):
+            return [walk(x, under) for x in v]
+        return v
+    defs(ans)
+    computes(ans)
+    return walk(ans)
+
+
+def lineage_canon(ans):
+    """lineage under wildcard-equal-order-choice: node ids erased (they are handed out in expansion order), the nodes as a
+    multiset, the columns of every frame split stably by input (order among the columns of one input kept)"""
+    def erase(v):
+        if isinstance(v, dict):
+            return {k: ("#" if k in ("id", "parent", "target_id", "input_id") and isinstance(x, int) else
+                        sorted("#" for _ in x) if k in ("targets", "children") and isinstance(x, list) else erase(x)) for k, x in v.items()}
+        if isinstance(v, list):
+            return [erase(x) for x in v]
+        return v
+    lin = ans["lineage"]
+    frames = []
+    for fr in lin.get("frames") or []:
+        if not (isinstance(fr, list) and len(fr) == 2 and isinstance(fr[1], dict)):
+            frames.append(erase(fr))
+            continue
+        inputs = {i.get("id"): i.get("name") for i in fr[1].get("inputs", []) if isinstance(i, dict)}
+        items = []
+        for c in fr[1].get("columns", []):
+            cl = "plain"
+            if isinstance(c, dict) and isinstance(c.get("All"), dict):
+                cl = "in:" + str(inputs.get(c["All"].get("input_id")))
+            elif isinstance(c, dict) and isinstance(c.get("Single"), dict) and isinstance(c["Single"].get("name"), list) and len(c["Single"]["name"]) > 1:
+                cl = "in:" + str(c["Single"]["name"][0])
+            items.append((cl, J(erase(c))))
+        frames.append([fr[0], {"columns": [[cl, [n for c2, n in items if c2 == cl]] for cl in sorted({c for c, _ in items})],
+                               "inputs": erase(fr[1].get("inputs"))}])
+    return {"lineage": {"frames": frames, "nodes": sorted((erase(n) for n in lin.get("nodes") or []), key=J)}}
 
 
 def _tree_paths(wit):
@@ -365,6 +669,16 @@ class Differ:
         self.wit = {}
 
     def add(self, key, wit, ans, where):
+        if wit.get("op") == "debug_stages" and "stage" not in wit and isinstance(ans, dict) and isinstance(ans.get("stages"), list):
+            # the debug log of one compile: every recorded representation is an output of its own
+            nth = {}
+            for st in [{"kind": "result", "value": ans.get("result")}] + ans["stages"]:
+                kind = st.get("kind") if isinstance(st, dict) else "?"
+                nth[kind] = nth.get(kind, 0) + 1
+                if isinstance(st, dict) and "value" in st:
+                    self.add((key[0] + ":" + str(kind) + "#" + str(nth[kind]),) + tuple(key[1:]), {**wit, "stage": kind, "nth": nth[kind]}, st["value"], where)
+            self.add((key[0] + ":kinds",) + tuple(key[1:]), {**wit, "stage": "kinds"}, [s.get("kind") if isinstance(s, dict) else s for s in ans["stages"]], where)
+            return
         d = self.seen.setdefault(key, {})
         self.wit[key] = wit
         j = J(ans)
@@ -373,25 +687,93 @@ class Differ:
         elif len(d[j][1]) < 4 and where not in d[j][1]:
             d[j][1].append(where)
 
+    # representations of the debug log that have no canonicaliser of their own: a difference is excused only by a known finding
+    # that the SAME program exhibits (fully explained) in an output that has one, and whose site lies before that representation
+    DERIVED = {"ReprPl": {"wildcard-equal-order-choice"},
+               "ReprPqEarly": {"wildcard-equal-order-choice"},
+               "ReprPq": {"wildcard-equal-order-choice", "orderby-alias-choice", "cte-instance-choice"},
+               "ReprSqlParser": {"wildcard-equal-order-choice", "orderby-alias-choice", "cte-instance-choice"}}
+
+    @staticmethod
+    def pq_cte_instance(v):
+        """cte-instance-choice seen in the PQ: with two instances of one CTE (two `Ref`s to one table id) the sort column that
+        fold_sql_query adds is redirected on an arbitrary instance - the column id under `Sort` differs (the SQL text can be the same
+        when the ORDER BY term is not qualified)"""
+        refs = []
+
+        def scan(x):
+            if isinstance(x, dict):
+                if isinstance(x.get("Ref"), int):
+                    refs.append(x["Ref"])
+                for y in x.values():
+                    scan(y)
+            elif isinstance(x, list):
+                for y in x:
+                    scan(y)
+        scan(v)
+        if len(refs) == len(set(refs)):
+            return v
+
+        def walk(x):
+            if isinstance(x, dict):
+                return {k: ([{**s, "column": "#"} if isinstance(s, dict) and isinstance(s.get("column"), int) else s for s in y]
+                            if k == "Sort" and isinstance(y, list) else walk(y)) for k, y in x.items()}
+            if isinstance(x, list):
+                return [walk(y) for y in x]
+            return x
+        return walk(v)
+
     def judge(self):
         ctx = self.ctx
+        exhibited = {}      # program text -> finding ids seen (explained) on it
+        later = []
         for key, d in self.seen.items():
             wit = self.wit[key]
-            nontrivial = any(("sql" in a or "rq" in a or "prql" in a or "json" in a or "errors" in a) for a, _ in d.values() if isinstance(a, dict))
+            nontrivial = any(("sql" in a or "rq" in a or "prql" in a or "json" in a or "errors" in a or "pl" in a or "lineage" in a or "ok" in a)
+                             for a, _ in d.values() if isinstance(a, dict)) or "stage" in wit
             ctx.case(key, nontrivial=nontrivial)
             if len(d) == 1:
                 continue
+            if wit.get("stage") in self.DERIVED:
+                later.append((key, d))
+                continue
             variants = [a for a, _ in d.values()]
-            ids, ok = classify(variants, wit)
-            replay = {"request": wit, "distinct_answers": len(d),
+            cwit = wit
+            if wit.get("stage") == "ReprRq":
+                variants, cwit = [{"rq": a} for a in variants], {**wit, "op": "rq"}
+            elif wit.get("stage") == "ReprSql":
+                variants, cwit = [{"sql": a} for a in variants], {**wit, "op": "compile"}
+            elif wit.get("stage") == "result":
+                cwit = {**wit, "op": "compile"}
+            ids, ok = classify(variants, cwit)
+            replay = {"request": {k: v for k, v in wit.items() if k not in ("stage", "nth")}, "distinct_answers": len(d),
                       "answers": [{"where": w, "answer": _shorten(a)} for a, w in list(d.values())[:6]]}
+            if "stage" in wit:
+                replay["stage"] = [wit["stage"], wit.get("nth")]
             if ok:
                 for fid in ids:
                     ctx.oracle_failure(fid, f"{len(d)} different answers for one request ({fid})", replay)
                     ctx.count("known-finding-exhibited:" + fid)
+                    ctx.count("unstable-output:" + fid + ":" + str(wit.get("op")) + (":" + wit["stage"] if "stage" in wit else ""))
+                    exhibited.setdefault(wit.get("prql", wit.get("src")), set()).add(fid)
             else:
                 ctx.oracle_failure(None, f"{len(d)} different answers for one request; not explained by a known order leak "
                                          f"(partially: {ids})", replay)
+        for key, d in later:
+            wit = self.wit[key]
+            ids = sorted(exhibited.get(wit.get("prql"), set()) & self.DERIVED[wit["stage"]])
+            if not ids and wit["stage"] in ("ReprPq", "ReprPqEarly") and len({J(self.pq_cte_instance(a)) for a, _ in d.values()}) == 1:
+                ids = ["cte-instance-choice"]
+            replay = {"request": {k: v for k, v in wit.items() if k not in ("stage", "nth")}, "stage": [wit["stage"], wit.get("nth")], "distinct_answers": len(d),
+                      "answers": [{"where": w, "answer": _shorten(a)} for a, w in list(d.values())[:4]]}
+            if ids:
+                for fid in ids:
+                    ctx.oracle_failure(fid, f"{len(d)} different {wit['stage']} representations in the debug log of one compile; the same program "
+                                            f"exhibits {fid} in its RQ / SQL", replay)
+                    ctx.count("unstable-output:" + fid + ":debug_stages:" + wit["stage"])
+            else:
+                ctx.oracle_failure(None, f"{len(d)} different {wit['stage']} representations in the debug log of one compile, while no known order "
+                                         f"leak shows in the RQ / SQL of the same program", replay)
 
 
 def _shorten(a):
@@ -462,7 +844,8 @@ def obs_of(letter, a):
 def run(ctx):
     br = vlib.standard_proof_obligations(ctx, ["PrqlModel.Props.C11"], ["HashSites"], required_theorems=REQUIRED)
     thorough = ctx.tier == "thorough"
-    ctx.rule = ("a case is one request (program x op in {compile, rq, fmt, pl_json_text}, or multi-file project x op) whose answers are "
+    ctx.rule = ("a case is one request (program x op in {compile [x dialect], rq, rq_json, pl, pl_json_text, fmt, lineage, tokens, lex, one "
+                "representation of the debug log}, or multi-file project x op) whose answers are "
                 "collected over: K fresh processes, 8 concurrent threads, call histories, repeated calls, every insertion order; "
                 "non-trivial = it produced SQL / RQ / text / an error list; plus one case per sequential debug-log history")
     ctx.assumptions += ["redirect targets are injective (fresh cid per redirect) - side condition of find_unique_order_indep at the cid_redirects sites",
@@ -542,22 +925,42 @@ def run(ctx):
                     progs.append(p + f" | derive {{zq1 = {m.group(1)}, zq2 = {m.group(1)}}} | take 7")
         except Exception:
             ctx.count("relgen-generator-error")
-    progs = list(dict.fromkeys(progs))
+    # programs that make map order observable in the intermediate outputs: systematic first, then random members of the family
+    wsys, many = wild_systematic(), many_things()
+    wrand = wild_random(rng, 500 if thorough else 120)
+    rich = list(dict.fromkeys(wsys + many + wrand + DIRECTED))
+    progs = list(dict.fromkeys(progs + rich))
     reqs = [{"op": op, "prql": p} for p in progs for op in OPS]
-    keyof = lambda r: (r["op"], r.get("prql"))
+    # every other output of every entry point: PL value, RQ JSON text, lineage (all programs); tokens of both lexer entry points and
+    # the SQL of every dialect (the rich programs; quick: three dialects per program in rotation, thorough: all)
+    reqs += [{"op": op, "prql": p} for p in progs for op in MID_OPS]
+    for i, p in enumerate(rich):
+        reqs += [{"op": op, "src": p} for op in SRC_OPS]
+        ds = DIALECTS if thorough else [DIALECTS[(i + j * 4) % len(DIALECTS)] for j in range(3)]
+        reqs += [{"op": "compile", "prql": p, "target": d} for d in ds]
+    # the representations recorded in the debug log (process-wide static: sequential runs only)
+    seq_reqs = [{"op": "debug_stages", "prql": p} for p in rich]
+    keyof = lambda r: (r["op"], r.get("prql", r.get("src")), r.get("target"))
     D = Differ(ctx)
     ctx.count("corpus-programs", len(progs)); ctx.count("corpus-directed", len(DIRECTED))
+    ctx.count("corpus-wildcard-systematic", len(wsys)); ctx.count("corpus-wildcard-random", len(wrand)); ctx.count("corpus-many-things", len(many))
+    for p in wsys + wrand:
+        ctx.count("wildcard-program:" + ("join" if " join " in p else "single") + ":" + ("excusable-by-wildcard-equal-order" if wild_trigger(p) else "strict"))
 
     # (i) K fresh processes
+    import time
+    T0 = time.time(); tim = {}
     K = 40 if thorough else 12
-    runs = vh_runs(reqs, K)
+    runs = vh_runs(reqs + seq_reqs, K)
     for k, out in enumerate(runs):
-        for r, a in zip(reqs, out):
+        for r, a in zip(reqs + seq_reqs, out):
             D.add(keyof(r), r, a, f"process#{k}")
     base = runs[0]
-    for r, a in zip(reqs, base):
+    for r, a in zip(reqs + seq_reqs, base):
         ctx.count("answer:" + ("sql" if "sql" in a else "rq" if "rq" in a else "prql" if "prql" in a else "json" if "json" in a else
-                               "errors" if "errors" in a else "panic" if "panic" in a else "other") + ":" + r["op"])
+                               "errors" if "errors" in a else "panic" if "panic" in a else "pl" if "pl" in a else "lineage" if "lineage" in a else
+                               "tokens" if "ok" in a else "stages" if "stages" in a else "other") + ":" + r["op"])
+    tim["processes"] = round(time.time() - T0, 1); T0 = time.time()
     # (ii) 8 threads, the whole corpus in flight
     for rounds in range(2 if thorough else 1):
         a = vh_each([{"op": "threads", "n": 8, "rounds": 1, "reqs": reqs}], timeout=900)[0]
@@ -566,6 +969,7 @@ def run(ctx):
         for r, dist in zip(reqs, per or []):
             for e in dist:
                 D.add(keyof(r), r, e["answer"], "8-threads")
+    tim["threads"] = round(time.time() - T0, 1); T0 = time.time()
     # (iii) histories of successful / failing / panicking calls, then probes (in one process each)
     nh = 24 if thorough else 8
     probes_n = 60 if thorough else 40
@@ -584,17 +988,20 @@ def run(ctx):
         ans = a.get("answers") or []
         ctx.obligation(f"history run {h} answered", len(ans) == len(pre) + len(pro), J(a)[:200] if len(ans) != len(pre) + len(pro) else "")
         for r, x in zip(pre + pro, ans):
-            if r.get("op") in OPS:
+            if r.get("op") in OPS or "src" in r or r.get("op") in MID_OPS:
                 D.add(keyof(r), r, x, f"history#{h}")
         ctx.count("history-prefix-panics", sum(1 for x in ans[:len(pre)] if "panic" in x))
         ctx.count("history-prefix-errors", sum(1 for x in ans[:len(pre)] if "errors" in x))
+    tim["histories"] = round(time.time() - T0, 1); T0 = time.time()
     # repeated calls in one process: the cheap way to see a leak flip (every HashMap gets its own seed)
-    rep_reqs = [r for r in reqs if r["prql"] in DIRECTED]
-    rep = vlib.vh_batch([{"op": "repeat", "k": 24 if thorough else 10, "req": r} for r in rep_reqs])
+    richset = set(rich)
+    rep_reqs = [r for r in reqs + seq_reqs if r.get("prql", r.get("src")) in richset]
+    rep = vlib.vh_batch([{"op": "repeat", "k": 24 if thorough else 10, "req": r} for r in rep_reqs], shards=vlib.NCPU)
     for r, a in zip(rep_reqs, rep):
         for e in a.get("distinct", []):
             D.add(keyof(r), r, e["answer"], "repeat-in-process")
 
+    tim["repeat"] = round(time.time() - T0, 1); T0 = time.time()
     # (iv) multi-file projects in every insertion order, both ways of building the tree
     treqs = []
     for files, main in TREES:
@@ -618,7 +1025,10 @@ def run(ctx):
             key = ("tree", r["what"], J(sorted(r["files"])), J(r["main_path"]))
             D.add(key, wit, canon_ids(a, order), "order=" + ",".join(order) + (" insert" if r["insert"] else ""))
     ctx.count("tree-requests", len(treqs) * len(tans))
+    tim["trees"] = round(time.time() - T0, 1); T0 = time.time()
     D.judge()
+    tim["judge"] = round(time.time() - T0, 1)
+    ctx.coverage_extra["seconds_per_phase"] = tim
     # the log race (another thread restarts the log while a compile holds a suppress token): explored, classified when it shows
     race = vh_each([{"op": "log_race", "rounds": 400 if thorough else 150, "req": LETTER_REQ["C"]} for _ in range(4 if thorough else 2)])
     for a in race:
@@ -647,7 +1057,7 @@ def replay(obj):
     print(json.dumps(obj, indent=1)[:6000])
     if "history" in r:
         print(vh_each([{"op": "history", "steps": r["steps"]}])[0])
-    elif isinstance(r.get("request"), dict) and "prql" in r["request"]:
+    elif isinstance(r.get("request"), dict) and ("prql" in r["request"] or "src" in r["request"]):
         a = vlib.vh_batch([{"op": "repeat", "k": 40, "req": r["request"]}])[0]
         print("40 calls in one process:", json.dumps([{"n": e["count"], "answer": J(e["answer"])[:300]} for e in a.get("distinct", [])], indent=1))
     return 0
